@@ -172,6 +172,10 @@ def run(ctx):
                 judge(ctx, name, inst)
             if t == 0 and ctx.shard == 0 and name in ("slitherlink", "heyawake"):
                 ctx.sample({"puzzle": name, "instance": inst})
+    # on the large boards the 'decided cells' clause is probed through the back end's own yes/no answers (M-SOLVE probe): a decided
+    # cell must be forced in the posted program, an undecided one must admit two values
+    mst = msolve.state()
+    mst.probe, mst.probe_owner = 2, "C11"
     for t in range(2 if not thorough else 12):
         for name in planted.PLANTERS:
             r = planted.plant(name, rng)
@@ -182,6 +186,7 @@ def run(ctx):
                 judge_planted(ctx, name, r[0], r[1])
             with ctx.guard(90):
                 sample_models(ctx, name, r[0], 3 if not thorough else 6, "planted")
+    mst.probe = 0
     msolve.uninstall()
 
 
